@@ -300,6 +300,33 @@ def kani_registry():
     p = os.path.join(VERIF, 'kani', 'registry.json')
     return json.load(open(p)) if os.path.exists(p) else []
 
+def ensure_fresh_targets():
+    """cargo decides what to rebuild from file mtimes.  A source tree whose CONTENT changed while mtimes went back (a patch reverted with
+    cp -p / rsync -a / tar) would leave the previous code compiled into the Kani and native harnesses.  So: hash the content of every
+    Rust/Cargo file of the repository, and if it differs from the hash recorded at the last build, drop the compiled crates."""
+    import fcntl
+    os.makedirs(BUILD, exist_ok=True)
+    h = hashlib.sha256()
+    for root, dirs, files in os.walk(REPO):
+        dirs[:] = sorted(d for d in dirs if d not in ('target', '.git'))
+        for f in sorted(files):
+            if f.endswith('.rs') or f in ('Cargo.toml', 'Cargo.lock'):
+                fp = os.path.join(root, f)
+                h.update(os.path.relpath(fp, REPO).encode()); h.update(b'\0')
+                try: h.update(open(fp, 'rb').read())
+                except OSError: pass
+    digest = h.hexdigest()
+    with open(os.path.join(BUILD, '.lock'), 'w') as lk:
+        fcntl.flock(lk, fcntl.LOCK_EX)
+        sp = os.path.join(BUILD, 'source.sha256')
+        old = open(sp).read().strip() if os.path.exists(sp) else None
+        if old != digest:
+            if old is not None:
+                for t in ('target-native', 'target-kani'):
+                    shutil.rmtree(os.path.join(BUILD, t), ignore_errors=True)
+            open(sp, 'w').write(digest)
+    return digest
+
 def materialize_crate(kind, crate):
     """copy /verif/<kind>/<crate> to BUILD/<kind>/<crate> with @REPO@ substituted + Cargo.lock from repo."""
     src = os.path.join(VERIF, kind, crate)
@@ -322,6 +349,7 @@ def materialize_crate(kind, crate):
 
 def run_kani(crate, harnesses, timeout):
     """run a set of harnesses of one harness crate; returns dict harness -> result"""
+    ensure_fresh_targets()
     dst = materialize_crate('kani', crate)
     env = dict(os.environ)
     env['CARGO_NET_OFFLINE'] = 'true'
@@ -391,6 +419,7 @@ def native_registry():
 
 def run_native(entries, tier):
     if not entries: return {}
+    ensure_fresh_targets()
     dst = materialize_crate('native', 'verif-native')
     env = dict(os.environ)
     env['CARGO_NET_OFFLINE'] = 'true'
